@@ -80,7 +80,9 @@ func (e *c19Env) install() {
 	synctest.Wait()
 }
 
-func newC19Env(shape string, atConstruct, passive bool) *c19Env {
+// preList: the server starts with another, unrelated blocklist already installed, so that the later
+// SetIPBlockList replaces a list instead of installing the first one.
+func newC19Env(shape string, atConstruct, passive, preList bool) *c19Env {
 	e := &c19Env{list: c19List(shape), passive: passive, store: newC13Store(), ps: &recPeerStore{}}
 	e.bx4 = &simPeer{Name: "bx4", Addr: sim.UDP4(66, 6, 6, 9, 6609), ID: sim.InBucket(sim.Root, 1, 41), Token: strp("tok:bx4")}
 	e.bx6 = &simPeer{Name: "bx6", Addr: &net.UDPAddr{IP: net.ParseIP("2001:db8:66::9"), Port: 6609}, ID: sim.InBucket(sim.Root, 1, 42), Token: strp("tok:bx6")}
@@ -97,6 +99,8 @@ func newC19Env(shape string, atConstruct, passive bool) *c19Env {
 		c.PeerStore = e.ps
 		if atConstruct {
 			c.IPBlocklist = e.list
+		} else if preList {
+			c.IPBlocklist = Blocklist{cidr("198.51.100.0/24")}
 		}
 		c.OnQuery = func(m *krpc.Msg, src net.Addr) bool {
 			e.mu.Lock()
@@ -197,7 +201,7 @@ func runC19(t *testing.T, c explore.Case) (res explore.Result) {
 	var outcome string
 	pan := Bubble(t, func() {
 		atConstruct := p["install"] == "construct"
-		e := newC19Env(p["blk"], atConstruct, p["passive"] == "t")
+		e := newC19Env(p["blk"], atConstruct, p["passive"] == "t", p["pre"] == "list")
 		y := e.y
 		defer func() {
 			y.Close()
@@ -424,7 +428,7 @@ func init() { runners["C19"] = runC19 }
 func TestC19(t *testing.T) {
 	w := explore.NewWorker("C19")
 	defer w.Finish()
-	w.SetRule("blocklist shape {single IPv4, IPv4 range, single IPv6, IPv4+IPv6} x installation {at construction, by SetIPBlockList after the blocked peer is in the table / holds a token / has a query pending} x passive on/off x path: ordered pairs (thorough: also ordered triples for two blocklist shapes) of 9 inbound datagram kinds from the blocked peer (every query method incl. tokened announce_peer and put, unsolicited response and error); reply/error to the query that was pending when the list was installed; Ping/FindNode/GetPeers/Get/Put to the blocked peer; Bootstrap, Announce, getput.Get, getput.Put over a network whose seeds and replies list the blocked peer; announce where the blocked peer answered get_peers before it was blocked; a 20-minute TableMaintainer run (the blocked entry turns questionable) with the blocked peer in the table; ordinary service of every method. Oracle: no datagram is ever written to a destination blocked at that moment; inbound from a blocked address causes no write and leaves table, stores, hooks and pending transactions unchanged; a pending query is not completed by a blocked reply; passive => no r/e written and every q carries ro=1, not passive => no q carries ro")
+	w.SetRule("blocklist shape {single IPv4, IPv4 range, single IPv6, IPv4+IPv6} x installation {at construction, by SetIPBlockList after the blocked peer is in the table / holds a token / has a query pending, each as first list or replacing an unrelated list} x passive on/off x path: ordered pairs (thorough: also ordered triples for two blocklist shapes) of 9 inbound datagram kinds from the blocked peer (every query method incl. tokened announce_peer and put, unsolicited response and error); reply/error to the query that was pending when the list was installed; Ping/FindNode/GetPeers/Get/Put to the blocked peer; Bootstrap, Announce, getput.Get, getput.Put over a network whose seeds and replies list the blocked peer; announce where the blocked peer answered get_peers before it was blocked; a 20-minute TableMaintainer run (the blocked entry turns questionable) with the blocked peer in the table; ordinary service of every method. Oracle: no datagram is ever written to a destination blocked at that moment; inbound from a blocked address causes no write and leaves table, stores, hooks and pending transactions unchanged; a pending query is not completed by a blocked reply; passive => no r/e written and every q carries ro=1, not passive => no q carries ro")
 	idx := 0
 	defer func() { w.AddStates(len(c19States)) }()
 	run := func(h []string) {
@@ -447,35 +451,44 @@ func TestC19(t *testing.T) {
 	for _, blk := range blks {
 		for _, passive := range []string{"f", "t"} {
 			for _, inst := range []string{"construct", "after-in-table", "after-token", "after-pending"} {
-				base := []string{"blk=" + blk, "passive=" + passive, "install=" + inst}
-				for _, a := range c19Inbound {
-					for _, b := range c19Inbound {
-						if !w.Thorough() && blk != "v4single" && a != b {
-							continue
-						}
-						run(append(append([]string(nil), base...), "path=inbound", "a="+a, "b="+b))
-						if w.Thorough() && (blk == "v4single" || blk == "both") {
-							for _, c3 := range c19Inbound {
-								run(append(append([]string(nil), base...), "path=inbound", "a="+a, "b="+b, "c="+c3))
+				pres := []string{""}
+				if inst != "construct" {
+					pres = []string{"", "list"}
+				}
+				for _, pre := range pres {
+					base := []string{"blk=" + blk, "passive=" + passive, "install=" + inst}
+					if pre != "" {
+						base = append(base, "pre="+pre)
+					}
+					for _, a := range c19Inbound {
+						for _, b := range c19Inbound {
+							if !w.Thorough() && (blk != "v4single" || pre != "") && a != b {
+								continue
+							}
+							run(append(append([]string(nil), base...), "path=inbound", "a="+a, "b="+b))
+							if w.Thorough() && (blk == "v4single" || blk == "both") {
+								for _, c3 := range c19Inbound {
+									run(append(append([]string(nil), base...), "path=inbound", "a="+a, "b="+b, "c="+c3))
+								}
 							}
 						}
 					}
-				}
-				if inst == "after-pending" {
-					for _, a := range []string{"resp", "err"} {
-						run(append(append([]string(nil), base...), "path=pending-reply", "a="+a))
+					if inst == "after-pending" {
+						for _, a := range []string{"resp", "err"} {
+							run(append(append([]string(nil), base...), "path=pending-reply", "a="+a))
+						}
 					}
+					for _, a := range []string{"ping", "find_node", "get_peers", "get", "put"} {
+						run(append(append([]string(nil), base...), "path=outbound", "a="+a))
+					}
+					for _, a := range []string{"bootstrap", "announce", "gp.get", "gp.put"} {
+						run(append(append([]string(nil), base...), "path=traversal", "a="+a))
+					}
+					if inst == "after-in-table" {
+						run(append(append([]string(nil), base...), "path=maintainer"))
+					}
+					run(append(append([]string(nil), base...), "path=serve"))
 				}
-				for _, a := range []string{"ping", "find_node", "get_peers", "get", "put"} {
-					run(append(append([]string(nil), base...), "path=outbound", "a="+a))
-				}
-				for _, a := range []string{"bootstrap", "announce", "gp.get", "gp.put"} {
-					run(append(append([]string(nil), base...), "path=traversal", "a="+a))
-				}
-				if inst == "after-in-table" {
-					run(append(append([]string(nil), base...), "path=maintainer"))
-				}
-				run(append(append([]string(nil), base...), "path=serve"))
 			}
 			run([]string{"blk=" + blk, "passive=" + passive, "install=late", "path=announce-late-block"})
 		}
